@@ -166,6 +166,6 @@ pub(crate) mod verif_fd3 {
     }
 }
 //@end
-//@harness fd3_decode_all kind=proof fn=FrameDecoder::decode_all props=C10,C03 tier=thorough bound="<= 2 frames/skippable frames, headers/bodies <= 2 bytes, skippable lengths <= 2, input <= 14 bytes, target <= 3 bytes" timeout=2400 heavy=yes
 //@harness fd3_decode_all_to_vec kind=proof fn=FrameDecoder::decode_all_to_vec props=C10 tier=quick bound="vector capacity 6" timeout=1800
 //@assume in fd3_* harnesses FrameDecoder::init / decode_blocks / read / can_collect / is_finished (resp. decode_all) are scripted contract stubs: only the multi-frame driver's own logic is examined (their contracts: FD4, FD1, D2, FD7)
+//@assume NOT RUN: harness fd3_decode_all (scripted multi-frame input) exhausts CBMC's memory and is not registered; decode_all is PROVED in Verus unit FD3V for every input. Only decode_all_to_vec (Vec::capacity / cmp::min are outside Verus' std specs) is checked here
